@@ -82,6 +82,9 @@ func c11Stderr(c *gen.Ctx, names []string, lines int, partial bool) string {
 }
 
 func runC11(c *gen.Ctx) error {
+	// real OS processes first (they take seconds; see oscmd.go)
+	c.DoParallel("oscmd", oscmdServerScenarios(c), 4)
+
 	var ins []any
 	var slow []any
 	add := func(kind string, s cc.VerifC11Spec) {
